@@ -28,6 +28,9 @@ type multiMember struct {
 	// sameTypeKeys: every struct field bound to one of these JSON keys stands for ONE schema node (a property of a definition that
 	// is also merged into a composition): it has the same Go type wherever it appears
 	sameTypeKeys []string
+	// selfRefKeys: the fields bound to these JSON keys are references of a document to ITSELF ("#"): their Go type is (a pointer to / a
+	// slice of pointers to) the struct that declares them
+	selfRefKeys []string
 }
 
 func objSpec(ps ...*fam.Prop) *fam.Spec { return &fam.Spec{Kind: "object", Props: ps} }
@@ -284,6 +287,19 @@ func multiMembers() []multiMember {
 			orders: [][]string{{"a.json"}, {"a.json", "node.json"}, {"node.json", "a.json"}},
 			outOf:  map[string]string{"a.json": "out.go", "node.json": "out.go"}, pkgOf: map[string]string{"out.go": "example.com/pkg/model"}})
 	}
+	// a recursive document that refers to itself with "#", generated NEXT TO an unrelated file with another $id that lands in the same
+	// output: the self reference is the document's own root type whichever file of the run created the output (sameTypeKeys: the
+	// recursive members have one type in every order)
+	{
+		self := func() *fam.Spec { return &fam.Spec{RefRootOf: "#", Kind: "object"} }
+		tree := objSpec(&fam.Prop{Label: "nm", Spec: &fam.Spec{Kind: "string", Kw: []string{"minLength"}}, Required: true},
+			&fam.Prop{Label: "parent", Concrete: "parent", Spec: self()}, &fam.Prop{Label: "children", Concrete: "children", Spec: &fam.Spec{Kind: "array", Items: self()}})
+		out = append(out, multiMember{name: "a document recursive through # next to an unrelated file of the same output", cfg: base,
+			files: []*fam.FileSpec{{Name: "first.json", ID: "https://example.com/first", Root: objSpec(&fam.Prop{Label: "k", Spec: &fam.Spec{Kind: "boolean"}})},
+				{Name: "tree.json", ID: "https://example.com/tree", Root: tree}},
+			orders: [][]string{{"tree.json"}, {"tree.json", "first.json"}, {"first.json", "tree.json"}}, selfRefKeys: []string{"parent", "children"},
+			outOf: map[string]string{"first.json": "out.go", "tree.json": "out.go"}, pkgOf: map[string]string{"out.go": "example.com/pkg/model"}})
+	}
 	return out
 }
 
@@ -340,6 +356,18 @@ func ruleMultiSel(c *core.Ctx, want map[string]bool, floor int, words ...string)
 					issues = append(issues, w.SynIssues()...)
 					issues = append(issues, w.TypeCheckAll(c.Prog.Repo, mm.pkgOf)...)
 					issues = append(issues, checkRouting(mm, w, args)...)
+					for _, k := range mm.selfRefKeys {
+						for _, fm := range w.Models {
+							for sn, S := range fm.Structs {
+								for _, F := range S.Fields {
+									if strings.Split(F.Tags["json"], ",")[0] == k && strings.TrimLeft(F.Type, "[]*") != sn {
+										issues = append(issues, fam.Issue{Rule: "A-MAP", Construct: "a document's reference to itself (#) is not typed as the document's root type",
+											Msg: fmt.Sprintf("%s.%s has type %s: the property is {\"$ref\": \"#\"}, the document itself, so it must be (a pointer to / a list of) %s — nested nodes are otherwise decoded untyped and none of the root's rules are enforced below the first level", sn, k, F.Type, sn)})
+									}
+								}
+							}
+						}
+					}
 					for _, k := range mm.sameTypeKeys {
 						seen := map[string]string{}
 						var names []string
